@@ -199,7 +199,7 @@ def gen_span(rng, widen=False):
 
 
 def gen_si(rng):
-    return {'power_dbm': rng.choice([0, 0, 1, -2, 3, 0.5]), 'tx_power_dbm': rng.choice([None, 0, 0, -5]),
+    return {'power_dbm': rng.choice([0, 0, 1, -2, 3, 0.5, 2, 4]), 'tx_power_dbm': rng.choice([None, 0, 0, -5]),
             'use_si_channel_count_for_design': rng.random() < 0.7}
 
 
@@ -212,7 +212,7 @@ def gen_roadm_params(rng):
 
 
 def gen_case(rng, tier, widen=False, raman_rate=0.08, raman_crash_rate=0.01, trx_src_rate=0.12, eol_zero=False,
-             lumped=False, multiband=False):
+             lumped=False, multiband=False, band_spacing=False):
     k = rng.choice([1, 1, 1, 2, 2, 3, 4, 5]) if tier == 'thorough' else rng.choice([1, 1, 1, 1, 2, 2, 3, 5])
     span = gen_span(rng, widen)
     if eol_zero:
@@ -234,6 +234,16 @@ def gen_case(rng, tier, widen=False, raman_rate=0.08, raman_crash_rate=0.01, trx
                    'line': gen_line(rng, 'ex0', tier, widen, raman=use_raman, src_is_trx=True)}
         raman = raman or use_raman
     roadms = {f'R{i}': gen_roadm_params(rng) for i in range(k + 1)}
+    roadm_design = {}
+    if band_spacing and rng.random() < 0.55:
+        # single design bands with their OWN spacing on some ROADMs (node level) or on the first degree of the hub
+        # (per_degree_design_bands), different from the 50 GHz of the SI: the design load is counted per band
+        for i in range(k + 1):
+            if rng.random() < 0.6:
+                roadm_design[f'R{i}'] = {'f_min': rng.choice([191.3e12, 191.3e12, 192.0e12]),
+                                         'f_max': rng.choice([195.1e12, 195.1e12, 195.0e12]),
+                                         'spacing': rng.choice([100e9, 100e9, 37.5e9, 75e9, 62.5e9, 200e9]),
+                                         'per_degree': i == 0 and rng.random() < 0.4}
     roadm_bands = {}
     eqpt = None
     if multiband:
@@ -283,7 +293,7 @@ def gen_case(rng, tier, widen=False, raman_rate=0.08, raman_crash_rate=0.01, trx
     return {'k': k, 'chains': chains, 'trx_src': trx_src, 'roadms': roadms, 'per_degree': {str(a): b for a, b in
                                                                                           per_degree.items()},
             'span': span, 'si': gen_si(rng), 'edfa_mod': edfa_mod if not eqpt else {}, 'has_raman': raman or crash,
-            'roadm_bands': roadm_bands, 'eqpt': eqpt}
+            'roadm_bands': roadm_bands, 'eqpt': eqpt, 'roadm_design': roadm_design}
 
 
 # ---------------------------------------------------------------------------------------------------------------------
@@ -296,6 +306,11 @@ def equipment_for(case):
         # one default band: ROADMs without design_bands are single-band (the second SI entry of the multiband library would
         # make every ROADM C+L by default)
         eq['SI'].pop('lband', None)
+    return apply_overrides(eq, case)
+
+
+def apply_overrides(eq, case):
+    """the Span / SI / Edfa modifications of the case on a loaded library"""
     sp = eq['Span']['default']
     for k, v in case['span'].items():
         setattr(sp, k, copy.deepcopy(v))
@@ -312,6 +327,32 @@ def all_chains(case):
     return list(case['chains']) + ([case['trx_src']] if case.get('trx_src') else [])
 
 
+def design_degree_key(case, roadm):
+    """uid of the element that follows `roadm` on its first line after design, when it is known beforehand (first element
+    not a fibre, or a fibre that is never split: its booster name)"""
+    ch = next((c for c in case['chains'] if c['src'] == roadm), None)
+    if ch is None:
+        return None
+    first = ch['line'][0]
+    if first['type'] in ('Fiber', 'RamanFiber'):
+        return f"Edfa_booster_{roadm}_to_{first['uid']}" if first['params']['length'] < 100.0 else None
+    return first['uid']
+
+
+def design_band_of(case, ch, eq):
+    """(f_min, f_max, spacing) of the design band of the OMS `ch` (own reading of the configuration): the band of that
+    degree if the user defined one, else the ROADM's band, else the SI band"""
+    si = eq['SI']['default']
+    d = (case.get('roadm_design') or {}).get(ch['src'])
+    if d:
+        if not d.get('per_degree'):
+            return d['f_min'], d['f_max'], d['spacing']
+        first = next((c for c in case['chains'] if c['src'] == ch['src']), None)
+        if first is ch and design_degree_key(case, ch['src']):
+            return d['f_min'], d['f_max'], d['spacing']
+    return si.f_min, si.f_max, si.spacing
+
+
 def topology_json(case):
     k = case['k']
     els, cxs = [], []
@@ -323,6 +364,15 @@ def topology_json(case):
         if e['type'] == 'Roadm' and nb:
             # 2 = C+L, 1 = an explicit single C band (same as no design_bands at all)
             e.setdefault('params', {})['design_bands'] = copy.deepcopy(BANDS_CL[:nb])
+    for e in els:
+        d = (case.get('roadm_design') or {}).get(e['uid']) if e['type'] == 'Roadm' else None
+        if d:
+            band = {'f_min': d['f_min'], 'f_max': d['f_max'], 'spacing': d['spacing']}
+            key = design_degree_key(case, e['uid']) if d.get('per_degree') else None
+            if key:
+                e.setdefault('params', {})['per_degree_design_bands'] = {key: [band]}
+            elif not d.get('per_degree'):
+                e.setdefault('params', {})['design_bands'] = [band]
     if case.get('trx_src'):
         els.append(nets.trx('TX'))
         cxs.append(nets.cx('R0', 'TX'))
@@ -517,6 +567,7 @@ def shrink_candidates(case):
                 ch['src'], ch['dst'] = ren[ch['src']], ren[ch['dst']]
             c['roadms'] = {ren[r]: v for r, v in c['roadms'].items() if r in ren}
             c['roadm_bands'] = {ren[r]: v for r, v in (c.get('roadm_bands') or {}).items() if r in ren}
+            c['roadm_design'] = {ren[r]: v for r, v in (c.get('roadm_design') or {}).items() if r in ren}
             c['per_degree'] = {}
             c['k'] = k - 1
             yield c
@@ -553,6 +604,10 @@ def shrink_candidates(case):
     if case.get('edfa_mod'):
         c = copy.deepcopy(case)
         c['edfa_mod'] = {}
+        yield c
+    for r in list(case.get('roadm_design') or {}):
+        c = copy.deepcopy(case)
+        del c['roadm_design'][r]
         yield c
     for r in list(case.get('roadm_bands') or {}):
         c = copy.deepcopy(case)
